@@ -1,8 +1,288 @@
-//! C06 — generator and driver of the real API.
+//! C06 — FMD-index: `smems`, `all_smems`, `forward_ext` / `backward_ext`, `init_interval_with`.
+//!
+//! text T = s1 $ revcomp(s1) $ s2 $ revcomp(s2) $ …   (built with `bio::alphabets::dna::revcomp`, as in the repo's tests)
+//!
+//! `c06 smems <s1>/<s2>/… k:<occ rate> l:<min length ≥ 1> <pattern>`
+//!     => `<suffix array> <smems(p,0,l)>/<smems(p,1,l)>/…/<smems(p,|p|-1,l)> <all_smems(p,l)>`
+//!     each result list: `;`-joined `b:len:flo:fhi:rlo:rhi` (`-` when empty) — pattern position, match length,
+//!     `forward()` interval, `revcomp()` interval
+//! `c06 ext <s1>/<s2>/… k:<occ rate> <chain>/<chain>/…`      chain = `<e|w>:<string w>:<j>:<dirs>`
+//!     a chain builds the bi-interval of `w` symbol by symbol, starting at w[j]:
+//!     `w` = start with `init_interval_with(w[j])`, then one `f` (forward_ext with the next symbol on the right)
+//!     or `b` (backward_ext with the next symbol on the left) per letter of `dirs` (|w|-1-j f's and j b's);
+//!     `e` = start with `init_interval()` (empty string) — `dirs` then has one more leading letter, which adds w[j].
+//!     The chain stops after the first empty bi-interval.
+//!     => `<suffix array> <chain>/<chain>/…`, chain = `;`-joined `flo:fhi:rlo:rhi`, one per string built
+//!     (w[j..j+1], then each extension).
 use crate::util::*;
+use bio::alphabets::dna;
+use bio::data_structures::bwt::{bwt, less, Occ};
+use bio::data_structures::fmindex::{BiInterval, FMDIndex, FMIndex};
+use bio::data_structures::suffix_array::suffix_array;
 
-pub fn gen(_tier: &str, _rng: &mut Rng, _out: &mut Vec<String>) {}
+const DNA: &[u8] = b"ACGTNacgtn";
 
-pub fn exec(_toks: &[&str]) -> Result<String, String> {
-    Err("unimplemented".into())
+pub fn fmd_text(seqs: &[Vec<u8>]) -> Vec<u8> {
+    let mut t = Vec::new();
+    for s in seqs {
+        t.extend_from_slice(s);
+        t.push(b'$');
+        t.extend(dna::revcomp(s));
+        t.push(b'$');
+    }
+    t
+}
+
+fn bi(iv: &BiInterval) -> String {
+    let (f, r) = (iv.forward(), iv.revcomp());
+    format!("{}:{}:{}:{}", f.lower, f.upper, r.lower, r.upper)
+}
+
+fn is_empty(iv: &BiInterval) -> bool {
+    let f = iv.forward();
+    f.upper == f.lower
+}
+
+fn smem_list(v: &[(BiInterval, usize, usize)]) -> String {
+    if v.is_empty() {
+        return "-".into();
+    }
+    v.iter().map(|(iv, b, l)| format!("{}:{}:{}", b, l, bi(iv))).collect::<Vec<_>>().join(";")
+}
+
+fn parse_seqs(tok: &str) -> Result<Vec<Vec<u8>>, String> {
+    let seqs: Vec<Vec<u8>> = split_ne(tok, '/').into_iter().map(unhex).collect::<Result<_, _>>()?;
+    if seqs.iter().flatten().any(|c| !DNA.contains(c)) {
+        return Err("sequence symbol outside ACGTNacgtn".into());
+    }
+    Ok(seqs)
+}
+
+pub fn exec(toks: &[&str]) -> Result<String, String> {
+    if toks.len() < 3 {
+        return Err("arity".into());
+    }
+    let seqs = parse_seqs(toks[1])?;
+    let k: u32 = parse(kv(toks[2], "k")?)?;
+    if k == 0 {
+        return Err("rate must be positive".into());
+    }
+    let text = fmd_text(&seqs);
+    let alphabet = dna::n_alphabet();
+    let sa = suffix_array(&text);
+    let bw = bwt(&text, &sa);
+    let le = less(&bw, &alphabet);
+    let oc = Occ::new(&bw, k, &alphabet);
+    match toks[0] {
+        "smems" => {
+            if toks.len() != 5 {
+                return Err("arity".into());
+            }
+            let l: usize = parse(kv(toks[3], "l")?)?;
+            let p = unhex(toks[4])?;
+            if l == 0 || p.is_empty() || p.iter().any(|c| !DNA.contains(c)) {
+                return Err("l >= 1 and a non-empty pattern over ACGTNacgtn required".into());
+            }
+            let fmd = FMDIndex::from(FMIndex::new(&bw, &le, &oc));
+            let per_i: Vec<String> = (0..p.len()).map(|i| smem_list(&fmd.smems(&p, i, l))).collect();
+            let all = smem_list(&fmd.all_smems(&p, l));
+            Ok(format!("{} {} {}", join(&sa, ","), per_i.join("/"), all))
+        }
+        "ext" => {
+            if toks.len() != 4 {
+                return Err("arity".into());
+            }
+            // owned components here (the other op borrows)
+            let fmd = FMDIndex::from(FMIndex::new(bw.clone(), le.clone(), oc.clone()));
+            let mut outs = vec![];
+            for ch in split_ne(toks[3], '/') {
+                let f: Vec<&str> = ch.split(':').collect();
+                if f.len() != 4 {
+                    return Err("chain".into());
+                }
+                let w = unhex(f[1])?;
+                let j: usize = parse(f[2])?;
+                let dirs = if f[3] == "-" { "" } else { f[3] };
+                if w.is_empty() || j >= w.len() || w.iter().any(|c| !DNA.contains(c)) {
+                    return Err("chain string".into());
+                }
+                let mut d = dirs.bytes();
+                let mut iv = match f[0] {
+                    "w" => fmd.init_interval_with(w[j]),
+                    "e" => match d.next() {
+                        Some(b'f') => fmd.forward_ext(&fmd.init_interval(), w[j]),
+                        Some(b'b') => fmd.backward_ext(&fmd.init_interval(), w[j]),
+                        _ => return Err("chain dirs".into()),
+                    },
+                    _ => return Err("chain mode".into()),
+                };
+                let rest: Vec<u8> = d.collect();
+                if rest.iter().filter(|&&c| c == b'f').count() != w.len() - 1 - j
+                    || rest.iter().filter(|&&c| c == b'b').count() != j
+                {
+                    return Err("chain dirs do not cover the string".into());
+                }
+                let (mut lo, mut hi) = (j, j + 1);
+                let mut steps = vec![bi(&iv)];
+                for c in rest {
+                    if is_empty(&iv) {
+                        break;
+                    }
+                    if c == b'f' {
+                        iv = fmd.forward_ext(&iv, w[hi]);
+                        hi += 1;
+                    } else {
+                        lo -= 1;
+                        iv = fmd.backward_ext(&iv, w[lo]);
+                    }
+                    steps.push(bi(&iv));
+                }
+                outs.push(steps.join(";"));
+            }
+            Ok(format!("{} {}", join(&sa, ","), outs.join("/")))
+        }
+        _ => Err("op".into()),
+    }
+}
+
+// ------------------------------------------------------------------------------------------------ generator
+
+fn alphabet(rng: &mut Rng) -> &'static [u8] {
+    match rng.below(12) {
+        0 | 1 => b"ACGT",
+        2 => b"ACGTN",
+        3 => b"ACGTNacgtn",
+        4 => b"AC",
+        5 => b"AT", // closed under complement: many reverse-complement palindromes
+        6 => b"Aa",
+        7 => b"ACGTacgt",
+        8 => b"CGN",
+        9 => b"AGn",
+        10 => b"N",
+        _ => b"ACgtN",
+    }
+}
+
+fn sequences(rng: &mut Rng, alpha: &[u8], long: bool) -> Vec<Vec<u8>> {
+    let n = 1 + rng.below(3);
+    (0..n)
+        .map(|_| {
+            let len = if long { 30 + rng.below(70) } else { rng.below(26) };
+            match rng.below(6) {
+                0 => {
+                    let per = 1 + rng.below(3);
+                    let w = rng.seq(alpha, per);
+                    (0..len).map(|i| w[i % per]).collect()
+                }
+                1 => {
+                    // reverse-complement palindrome
+                    let h = rng.seq(alpha, len / 2);
+                    let mut s = h.clone();
+                    s.extend(dna::revcomp(&h));
+                    s
+                }
+                _ => rng.seq(alpha, len),
+            }
+        })
+        .collect()
+}
+
+/// a piece of a sequence or of a reverse complement
+fn piece(rng: &mut Rng, seqs: &[Vec<u8>], alpha: &[u8], maxlen: usize) -> Vec<u8> {
+    let ne: Vec<&Vec<u8>> = seqs.iter().filter(|s| !s.is_empty()).collect();
+    if ne.is_empty() {
+        let l = 1 + rng.below(3);
+        return rng.seq(alpha, l);
+    }
+    let s0 = *rng.pick(&ne);
+    let s = if rng.chance(1, 2) { s0.clone() } else { dna::revcomp(s0) };
+    let i = rng.below(s.len());
+    let l = 1 + rng.below((s.len() - i).min(maxlen));
+    s[i..i + l].to_vec()
+}
+
+fn pattern(rng: &mut Rng, seqs: &[Vec<u8>], alpha: &[u8]) -> Vec<u8> {
+    let mut p = vec![];
+    let parts = 1 + rng.below(3);
+    let clean = rng.chance(2, 5);
+    for _ in 0..parts {
+        let maxlen = if rng.chance(1, 3) { 25 } else { 8 };
+        p.extend(piece(rng, seqs, alpha, maxlen));
+        if !clean && rng.chance(1, 4) {
+            // a foreign symbol between the pieces
+            p.push(*rng.pick(DNA));
+        }
+    }
+    // point changes: within the text alphabet, to N / n, or to the other case
+    let changes = if clean { 0 } else { rng.below(3) };
+    for _ in 0..changes {
+        let i = rng.below(p.len());
+        p[i] = match rng.below(4) {
+            0 => b'N',
+            1 => p[i] ^ 0x20,
+            2 => *rng.pick(DNA),
+            _ => *rng.pick(alpha),
+        };
+    }
+    p.truncate(30);
+    p
+}
+
+const RATES: [u32; 9] = [1, 2, 3, 8, 64, 65, 100, 128, 1000];
+
+fn chain(rng: &mut Rng, seqs: &[Vec<u8>], alpha: &[u8]) -> String {
+    let mut w = piece(rng, seqs, alpha, 12);
+    if w.len() < 3 && rng.chance(2, 3) {
+        w.extend(piece(rng, seqs, alpha, 6));
+    }
+    if rng.chance(1, 3) {
+        let i = rng.below(w.len());
+        let any = rng.chance(1, 2);
+        w[i] = *rng.pick(if any { DNA } else { alpha });
+    }
+    if rng.chance(1, 5) {
+        w.push(*rng.pick(DNA));
+    }
+    if rng.chance(1, 5) {
+        w.insert(0, *rng.pick(DNA));
+    }
+    let j = rng.below(w.len());
+    let (mut nf, mut nb) = (w.len() - 1 - j, j);
+    let mut dirs = String::new();
+    let mode = if rng.chance(1, 4) { "e" } else { "w" };
+    if mode == "e" {
+        dirs.push(if rng.chance(1, 2) { 'f' } else { 'b' });
+    }
+    while nf + nb > 0 {
+        if nb == 0 || (nf > 0 && rng.chance(1, 2)) {
+            dirs.push('f');
+            nf -= 1;
+        } else {
+            dirs.push('b');
+            nb -= 1;
+        }
+    }
+    format!("{}:{}:{}:{}", mode, hex(&w), j, if dirs.is_empty() { "-".to_string() } else { dirs })
+}
+
+pub fn gen(tier: &str, rng: &mut Rng, out: &mut Vec<String>) {
+    let thorough = tier == "thorough";
+    let (nidx, npat) = if thorough { (5_000, 20) } else { (1_200, 10) };
+    for i in 0..nidx {
+        let alpha = alphabet(rng);
+        let seqs = sequences(rng, alpha, i % 6 == 5);
+        let sq = seqs.iter().map(|s| hex(s)).collect::<Vec<_>>().join("/");
+        let tlen = fmd_text(&seqs).len() as u32;
+        for _ in 0..npat {
+            let k = if rng.chance(1, 10) { 2 * tlen } else { *rng.pick(&RATES) };
+            let l = *rng.pick(&[1usize, 1, 2, 3, 5]);
+            let p = pattern(rng, &seqs, alpha);
+            out.push(format!("smems {} k:{} l:{} {}", sq, k, l, hex(&p)));
+        }
+        for _ in 0..(npat / 5).max(1) {
+            let k = *rng.pick(&RATES);
+            let chains: Vec<String> = (0..6).map(|_| chain(rng, &seqs, alpha)).collect();
+            out.push(format!("ext {} k:{} {}", sq, k, chains.join("/")));
+        }
+    }
 }
